@@ -285,6 +285,38 @@ def _interior_model(pc, timeout):
     return None, False
 
 
+def _diverse_models(pc, names, k, timeout, seed=0):
+    import random
+    rnd = random.Random(1234 + seed)
+    reals = [n for n in names if not n.startswith(("c_", "s_"))]
+    out = []
+    for i in range(k):
+        extra = []
+        for n in reals:
+            v = z3.Real(n)
+            ch = rnd.randrange(5)
+            if ch == 0:
+                extra.append(v < 0)
+            elif ch == 1:
+                extra.append(v > 0)
+            elif ch == 2:
+                kk = z3.Int("divk_%s" % n)
+                extra.append(v == z3.ToReal(kk) + z3.RealVal("1/2"))      # half-integer tie
+            elif ch == 3:
+                kk = z3.Int("divk_%s" % n)
+                extra.append(z3.And(v > z3.ToReal(kk) + z3.RealVal("1/2"), v < z3.ToReal(kk) + 1, v < 0))
+        # drop extras until satisfiable
+        while True:
+            r, m, _ = solve.check(list(pc) + extra, timeout=timeout, want_model=True)
+            if r == "sat" and m is not None:
+                out.append(m)
+                break
+            if not extra:
+                break
+            extra = extra[: len(extra) // 2]
+    return out
+
+
 def _strengthen(c, margin):
     if z3.is_not(c):
         a = c.children()[0]
@@ -407,6 +439,19 @@ def run_path(harness, params, prefix, opts):
             out["pc_model"] = _model_to_json(m)
             out["pc_model_interior"] = interior
             out["crosscheck"] = run_concrete(harness, params, m)
+    if out["status"] in ("unsupported", "exception") and want_cc and opts.get("fallback_models", 6) > 0:
+        # The symbolic run could not finish this path.  Guard (not the deciding step): run the plain package on
+        # several diversified models of the partial path condition; a concrete failure is a real counterexample.
+        fb = []
+        for dm in _diverse_models(pc, env.vars, opts.get("fallback_models", 6), opts.get("qtimeout", 30.0), seed=len(prefix)):
+            rc = run_concrete(harness, params, dm)
+            if rc["status"] == "exception" or rc.get("failed"):
+                fb.append({"model": _model_to_json(dm), "result": rc})
+                break
+        out["fallback_runs"] = opts.get("fallback_models", 6)
+        if fb:
+            out["pc_model"] = fb[0]["model"]
+            out["crosscheck"] = fb[0]["result"]
     out["nvars"] = len(env.vars)
     out["queries"] = solve.STATS["queries"] - q0
     out["seconds"] = round(time.time() - t0, 3)
